@@ -20,7 +20,17 @@ machine's heap, the reclamation-free machine's values and the evaluator's own ou
 implementation's `nf` / `pf` output and ending, and the NUMBER of frame resets / pool returns / copying
 promotions the issued ops imply must equal the numbers the real runtime counted (exactly on runs that
 end ok; on runs ending in a runtime error the real run_inner pops one more scope, so its pool returns may
-exceed the model's)."""
+exceed the model's).
+
+HOST STREAM (strengthening round): host values are boxed records whose strings must be persistent because
+HostHandle::promote looks at the handle's address only.  `gen_host` builds programs in which a process builder is
+configured with COMPUTED strings (arg, cwd, env key and value, stdin_text, program) at top level, inside helper
+functions mutating an outer builder, on a builder passed in and handed back, inside loops, loops inside helpers,
+nested helpers and conditionals; frame churn follows; run() happens at top level, inside helpers returning the
+result directly / after binding / as derived text / inside arrays, inside loops collecting results; churn again;
+then the child's view (pwd, NS_* environment, arguments, stdin via /bin/sh) and the script's view (stdout, stderr,
+exit code, success) are printed.  The oracle is the same nf==nn / pf==pn differential (spawning is allowed by the
+default native host policy of `nsverif lang`)."""
 import os
 import re
 
@@ -40,7 +50,10 @@ TRUSTED_EXTRA = [
     "C02: the guarded counters in src/runtime.rs (frame resets / pool returns / promotions) are evidence only",
 ]
 ASSUMPTIONS = [
-    "host/process values, read_line and the backing stores of the scope vectors (Vec<LocalSlot> in the frame arena) are not in the storage model",
+    "host/process values are not values of the storage model (theories/Mem.v): their discipline (every string a builder stores and every captured "
+    "stream is built in the persistent arena; promotion looks at the handle only) is checked by the regenerated flag src_host_discipline and by the "
+    "host stream of the frame-vs-no-frame oracle, which spawns /bin/sh children",
+    "read_line and the backing stores of the scope vectors (Vec<LocalSlot> in the frame arena) are not in the storage model",
     "in-place growth of a Vec that is the last allocation of its arena is modelled as a reallocation",
     "runs ending in Stack overflow or a timeout are not compared",
 ]
@@ -568,6 +581,271 @@ def gen_program(rng, tier):
     g = C02Gen(rng, opts)
     src = g.program()
     return src, g.stats, g.tstats
+
+
+# ---- host family: process builders configured with computed strings inside functions / loops, results of
+# run() crossing call / loop boundaries, frame churn, then observation through the child (cwd, env, args,
+# stdin) and through the script (stdout, stderr, exit code)
+HOST_DIRS = ["usr", "etc", "tmp", "bin", "var"]
+HOST_SCRIPT = "pwd; echo $NS_A:$NS_B:$NS_C; echo $@; cat; echo e:$NS_B:$1 >&2; exit 3"
+
+
+class HostGen:
+    def __init__(self, r):
+        self.r = r
+        self.n = 0
+        self.lines = []
+        self.results = []      # expressions denoting a process_result
+
+    def fresh(self, p):
+        self.n += 1
+        return "%s%d" % (p, self.n)
+
+    def word(self):
+        """text without shell-active characters, of a pool-class boundary size now and then"""
+        r = self.r
+        n = r.choice([1, 2, 3, 7, 8, 9, 15, 16, 17, 31, 33, 64, 120, 129, 257])
+        return sized(r, n).replace("é", "e")
+
+    def computed(self, base=None):
+        """an expression building an owned (frame) string at run time; `base` = an in-scope string expression"""
+        r = self.r
+        w = self.word()
+        k = r.randrange(6)
+        if base is None:
+            base = '"%s"' % self.word()
+        if k == 0:
+            return '("%s" add %s)' % (w, base)
+        if k == 1:
+            return '(%s add "%s")' % (base, w)
+        if k == 2:
+            return '("%s" add to_string(%d))' % (w, r.randint(0, 99))
+        if k == 3:
+            return '(%s add "").to_uppercase()' % base
+        if k == 4:
+            return '("%s" add %s).slice(0, %d)' % (w, base, r.choice([3, 9, 17, 130]))
+        return '("  %s " add %s).trim()' % (w, base)
+
+    def text(self, base=None, lit_ok=True):
+        r = self.r
+        if lit_ok and r.random() < 0.2:
+            return '"%s"' % self.word()
+        if base is not None and r.random() < 0.3:
+            return base                                    # a bare variable / parameter
+        if base is not None and r.random() < 0.25:
+            return '"%s{%s}"' % (self.word()[:4], base) if base.isidentifier() else self.computed(base)
+        return self.computed(base)
+
+    def dir_expr(self, base=None):
+        """an expression evaluating to an existing directory; base = in-scope expression holding a HOST_DIRS name"""
+        r = self.r
+        if base is None:
+            d = r.choice(HOST_DIRS)
+            return r.choice(['("/" add "%s")' % d, '("/%s" add "")' % d, '"/%s"' % d, '("/usr/" add "bin")', '("/" add "%s").trim()' % d])
+        return r.choice(['("/" add %s)' % base, '"/{%s}"' % base if base.isidentifier() else '("/" add %s)' % base,
+                         '("/" add %s add "/")' % base])
+
+    def key_expr(self, base=None):
+        r = self.r
+        if base is None:
+            k = r.choice("ABC")
+            return r.choice(['("NS_" add "%s")' % k, '"NS_%s"' % k, '("ns_%s" add "").to_uppercase()' % k.lower()])
+        return r.choice(['("NS_" add %s)' % base, '"NS_{%s}"' % base if base.isidentifier() else '("NS_" add %s)' % base])
+
+    def step(self, b, sbase=None, dbase=None, kbase=None):
+        """one configuration statement on builder expression b"""
+        r = self.r
+        k = r.randrange(10)
+        if k < 3:
+            return "%s.arg(%s)" % (b, self.text(sbase))
+        if k < 5:
+            return "%s.cwd(%s)" % (b, self.dir_expr(dbase))
+        if k < 8:
+            return "%s.env(%s, %s)" % (b, self.key_expr(kbase), self.text(sbase))
+        form = r.randrange(4)
+        if form == 0:
+            return "%s.stdin_text(%s)" % (b, self.text(sbase))
+        if form == 1:
+            return '%s.stdin_text([%s, %d])' % (b, self.text(sbase), r.randint(0, 9))
+        if form == 2:
+            return '%s.stdin_text("%s\\n%s\\n")' % (b, self.word(), self.word())
+        return "%s.stdin_text(%s add %s)" % (b, self.text(sbase, lit_ok=False), self.text(sbase))
+
+    def churn(self, pad=""):
+        """allocations that land where a dead frame string was"""
+        r = self.r
+        out = []
+        k = r.randrange(4)
+        if k == 0:
+            f = self.fresh("ch")
+            out += ["%sdo %s(t) start" % (pad, f), '%s  make l get "/" add t' % pad, "%s  return l add l" % pad, "%send" % pad,
+                    "%sshout(%s(%s).len())" % (pad, f, self.r.choice(['"etc"', '"tmp"', self.text()]))]
+        elif k == 1:
+            i, s = self.fresh("i"), self.fresh("s")
+            out += ['%smake %s get ""' % (pad, s), "%smake %s get 0" % (pad, i), "%sjasi (%s small pass %d) start" % (pad, i, r.randint(1, 6)),
+                    "%s  %s get %s add %s" % (pad, s, s, self.text()), "%s  %s get %s add 1" % (pad, i, i), "%send" % pad,
+                    "%sshout(%s.len())" % (pad, s)]
+        elif k == 2:
+            out += ["%smake %s get [%s, %s, %s]" % (pad, self.fresh("t"), self.text(), self.text(), self.text())]
+        else:
+            out += ["%sshout((%s add %s).len())" % (pad, self.computed(), self.computed())]
+        return out
+
+    def configure(self, b):
+        """a block of configuration steps on the top-level builder variable b, in a random context"""
+        r = self.r
+        L = self.lines
+        ctx = r.randrange(7)
+        nsteps = r.randint(1, 3)
+        if ctx == 0:                                   # top level
+            L += [self.step(b) for _ in range(nsteps)]
+        elif ctx == 1:                                 # helper function mutating the OUTER builder
+            f = self.fresh("f")
+            L += ["do %s(p, d, k) start" % f] + ["  " + self.step(b, "p", "d", "k") for _ in range(nsteps)] + ["end",
+                  "%s(%s, %s, %s)" % (f, self.text(), r.choice(['"%s"' % x for x in HOST_DIRS] + ['("u" add "sr")']), r.choice(['"A"', '"B"', '("C" add "")']))]
+        elif ctx == 2:                                 # builder passed in and handed back
+            f = self.fresh("f")
+            L += ["do %s(c, p, d) start" % f] + ["  " + self.step("c", "p", "d") for _ in range(nsteps)] + ["  return c", "end",
+                  "%s get %s(%s, %s, %s)" % (b, f, b, self.text(), r.choice(['"%s"' % x for x in HOST_DIRS]))]
+        elif ctx == 3:                                 # loop body
+            i, names, dirs = self.fresh("i"), self.fresh("ks"), self.fresh("ds")
+            n = r.randint(1, 3)
+            L += ['make %s get ["A", "B", "C"]' % names, 'make %s get ["usr", "etc", "tmp"]' % dirs, "make %s get 0" % i,
+                  "jasi (%s small pass %d) start" % (i, n)]
+            L += ["  " + self.step(b, r.choice(["to_string(%s)" % i, "%s[%s]" % (names, i)]), "%s[%s]" % (dirs, i), "%s[%s]" % (names, i))
+                  for _ in range(nsteps)]
+            L += ["  %s get %s add 1" % (i, i), "end"]
+        elif ctx == 4:                                 # loop inside a helper on the outer builder
+            f, i = self.fresh("f"), self.fresh("i")
+            L += ["do %s(p, n) start" % f, '  make ks get ["A", "B", "C"]', '  make ds get ["usr", "etc", "tmp"]', "  make %s get 0" % i,
+                  "  jasi (%s small pass n) start" % i]
+            L += ["    " + self.step(b, r.choice(["p", "p add to_string(%s)" % i]), "ds[%s]" % i, "ks[%s]" % i) for _ in range(nsteps)]
+            L += ["    %s get %s add 1" % (i, i), "  end", "end", "%s(%s, %d)" % (f, self.text(), r.randint(1, 3))]
+        elif ctx == 5:                                 # nested helpers
+            f, g = self.fresh("f"), self.fresh("g")
+            L += ["do %s(p, d) start" % g] + ["  " + self.step(b, "p", "d") for _ in range(nsteps)] + ["end",
+                  "do %s(q) start" % f, "  %s(q add %s, %s)" % (g, self.text(), r.choice(['"usr"', '"etc"'])),
+                  "  make w get %s" % self.computed("q"), "  return w.len()", "end", "shout(%s(%s))" % (f, self.text())]
+        else:                                          # conditional inside a helper
+            f = self.fresh("f")
+            L += ["do %s(p, d, on) start" % f, "  if to say (on) start"] + ["    " + self.step(b, "p", "d") for _ in range(nsteps)] + [
+                  "  end", "  return p", "end", "shout(%s(%s, %s, true).len())" % (f, self.text(), r.choice(['"%s"' % x for x in HOST_DIRS]))]
+
+    def new_builder(self):
+        r = self.r
+        L = self.lines
+        b = self.fresh("cmd")
+        prog = r.choice(['"/bin/sh"', '("/bin/" add "sh")', '"sh"', '("s" add "h")'])
+        base = ['%s.arg("-c")', '%s.arg("' + HOST_SCRIPT + '")', '%s.arg("ns")', "%s.stdout_capture()", "%s.stderr_capture()", "%s.stdin_null()"]
+        if r.random() < 0.35:                          # built by a function and returned (relocated as a host value)
+            mk = self.fresh("mk")
+            L += ["do %s(p) start" % mk, "  make c get command(p)"] + ["  " + (x % "c") for x in base]
+            L += ["  return c", "end", "make %s get %s(%s)" % (b, mk, prog)]
+        else:
+            L += ["make %s get command(%s)" % (b, prog)] + [x % b for x in base]
+        return b
+
+    def run_site(self, b):
+        """runs the builder; registers expressions that denote the result"""
+        r = self.r
+        L = self.lines
+        k = r.randrange(7)
+        if k == 0:
+            v = self.fresh("res")
+            L += ["make %s get %s.run()" % (v, b)]
+            self.results.append(v)
+        elif k == 1:                                   # run inside a helper, result returned directly
+            f, v = self.fresh("rf"), self.fresh("res")
+            L += ["do %s(tag) start" % f, '  make label get "/" add tag', "  return %s.run()" % b, "end",
+                  "make %s get %s(%s)" % (v, f, r.choice(['"etc"', '"usr"', self.text()]))]
+            self.results.append(v)
+        elif k == 2:                                   # bound in the helper, then returned
+            f, v = self.fresh("rf"), self.fresh("res")
+            L += ["do %s(tag) start" % f, '  make label get "/" add tag', "  make res get %s.run()" % b,
+                  "  shout(label.len())", "  return res", "end", "make %s get %s(%s)" % (v, f, self.text())]
+            self.results.append(v)
+        elif k == 3:                                   # the helper returns text derived from the result
+            f = self.fresh("rf")
+            L += ["do %s(tag) start" % f, '  make label get "/" add tag', "  make res get %s.run()" % b,
+                  '  return label add " -> " add res.stdout() add res.stderr()', "end", "shout(%s(%s))" % (f, r.choice(['"etc"', '"usr"', self.text()]))]
+        elif k == 4:                                   # results collected in a loop
+            acc, i = self.fresh("acc"), self.fresh("i")
+            n = r.randint(1, 3)
+            L += ["make %s get []" % acc, "make %s get 0" % i, "jasi (%s small pass %d) start" % (i, n),
+                  "  %s.push(%s.run())" % (acc, b), "  %s.env(%s, %s)" % (b, self.key_expr(), self.text("to_string(%s)" % i)),
+                  "  %s get %s add 1" % (i, i), "end"]
+            self.results += ["%s[%d]" % (acc, j) for j in range(n)]
+        elif k == 5:                                   # helper returns an array holding results
+            f, v = self.fresh("rf"), self.fresh("rs")
+            L += ["do %s() start" % f, "  make a get %s.run()" % b, "  return [a, %s.run()]" % b, "end", "make %s get %s()" % (v, f)]
+            self.results += ["%s[0]" % v, "%s[1]" % v]
+        else:                                          # assigned to an outer variable from inside a loop body
+            v, i = self.fresh("last"), self.fresh("i")
+            L += ["make %s get %s.run()" % (v, b), "make %s get 0" % i, "jasi (%s small pass %d) start" % (i, r.randint(1, 2)),
+                  "  %s get %s.run()" % (v, b), "  %s get %s add 1" % (i, i), "end"]
+            self.results.append(v)
+
+    def observe(self):
+        r = self.r
+        for e in self.results:
+            obs = ["shout(%s.stdout())" % e, "shout(%s.stderr())" % e, "shout(%s.exit_code())" % e, "shout(%s.success())" % e]
+            r.shuffle(obs)
+            self.lines += obs[:r.randint(2, 4)]
+            if "shout(%s.stdout())" % e not in self.lines[-4:]:
+                self.lines.append("shout(%s.stdout())" % e)
+        self.results = []
+
+    def program(self):
+        r = self.r
+        b = self.new_builder()
+        for _ in range(r.randint(1, 3)):
+            self.configure(b)
+            if r.random() < 0.4:
+                self.lines += self.churn()
+        for _ in range(r.randint(1, 2)):
+            self.lines += self.churn()
+        self.run_site(b)
+        for _ in range(r.randint(1, 3)):
+            self.lines += self.churn()
+        if r.random() < 0.4:                           # reconfigure and run again
+            self.configure(b)
+            self.lines += self.churn()
+            self.run_site(b)
+            self.lines += self.churn()
+        self.observe()
+        return "\n".join(self.lines) + "\n"
+
+
+def gen_host(r):
+    return HostGen(r).program()
+
+
+# fixed host programs: the shapes of the seeded changes that the first three rounds of this check missed
+# (C02-c2 eval_required_string keeps the frame copy; C15-c1 stdin text formatted into the frame; C16-c1 captured
+# text allocated in the frame) and their neighbours
+HOST_PRELUDE = ('make cmd get command("/bin/sh")\ncmd.arg("-c")\ncmd.arg("%s")\ncmd.arg("ns")\ncmd.stdout_capture()\n'
+                'cmd.stderr_capture()\ncmd.stdin_null()\n' % HOST_SCRIPT)
+HOST_CORPUS = [
+    HOST_PRELUDE + 'do enter(dir) start\n  cmd.cwd("/" add dir)\nend\ndo run_labelled(tag) start\n  make label get "/" add tag\n'
+    '  make res get cmd.run()\n  return label add " -> " add res.stdout()\nend\nenter("usr")\nshout(run_labelled("etc"))\n',
+    HOST_PRELUDE + 'make names get ["A", "B"]\nmake i get 0\njasi (i small pass names.len()) start\n'
+    '  cmd.env("NS_" add names[i], "value" add to_string(i))\n  i get i add 1\nend\nmake res get cmd.run()\nshout(res.stdout())\nshout(res.stderr())\n',
+    HOST_PRELUDE + 'do feed(text) start\n  cmd.stdin_text(text)\nend\nfeed("line one\\nline two\\n")\nmake n get 7\n'
+    'make note get "%s report {n}"\nmake res get cmd.run()\nshout(res.success())\nshout(res.stdout())\nshout(note.len())\n' % ("=" * 300),
+    'do capture(script) start\n  make c get command("/bin/sh")\n  c.arg("-c")\n  c.arg(script)\n  c.stdout_capture()\n  c.stderr_capture()\n'
+    '  c.stdin_null()\n  return c.run()\nend\ndo pad(n) start\n  make s get ""\n  make i get 0\n  jasi (i small pass n) start\n    s get s add "x"\n'
+    '    i get i add 1\n  end\n  return s\nend\nmake res get capture("printf hello_from_the_child; printf and_from_stderr >&2; exit 3")\n'
+    'make filler get pad(40)\nshout(res.stdout())\nshout(res.stderr())\nshout(res.exit_code())\nshout(filler)\n',
+    HOST_PRELUDE + 'do conf(a, k) start\n  cmd.arg(a add "-" add k)\n  cmd.env("NS_" add k, a)\n  cmd.stdin_text([a, k])\nend\n'
+    'conf("one" add "two", "A")\nconf("three" add "four", "B")\nmake t get ["x" add "y", "z" add "w", "q" add "r"]\n'
+    'make res get cmd.run()\nshout(res.stdout())\nshout(res.stderr())\n',
+    HOST_PRELUDE + 'do runs(n) start\n  make out get []\n  make i get 0\n  jasi (i small pass n) start\n    cmd.env("NS_C", "it" add to_string(i))\n'
+    '    out.push(cmd.run())\n    i get i add 1\n  end\n  return out\nend\nmake rs get runs(3)\nmake churn get ("ab" add "cd") add ("ef" add "gh")\n'
+    'shout(rs[0].stdout())\nshout(rs[2].stdout())\nshout(rs[1].stderr())\nshout(rs[2].exit_code())\n',
+    'do mk(p) start\n  make c get command("/bin/" add p)\n  c.arg("-c")\n  c.arg("%s")\n  c.arg("ns")\n  c.stdout_capture()\n  c.stderr_capture()\n'
+    '  c.stdin_text("in-" add p)\n  c.cwd("/" add "tmp")\n  return c\nend\nmake a get mk("sh")\nmake b get mk("sh")\nb.cwd("/" add "usr")\n'
+    'make filler get ("/" add "etc") add ("/" add "var")\nmake ra get a.run()\nmake rb get b.run()\nshout(ra.stdout())\nshout(rb.stdout())\n' % HOST_SCRIPT,
+]
 
 
 # =====================================================================================
@@ -1456,6 +1734,45 @@ def correspond(env, searching=False, model=True):
                 if mv[0] == "ok" and mv[1] == ref[1] and len(disagreements) < 5:
                     disagreements.append({"stream": "mem-model-blind-to-witness", "case": src, "detail": {want: mv}})
 
+    # ---------------- stream 3: host values — builders configured with computed strings inside functions / loops,
+    # results of run() crossing call and loop boundaries, frame churn, then observation through the child and the script
+    host_stats = {"programs": 0, "accepted": 0, "rejected": 0, "oracle_failures": 0, "child_output_seen": 0}
+    n_host = 120 if tier == "quick" else 3000
+    hcases = [("hc%d" % i, src) for i, src in enumerate(HOST_CORPUS)]
+    while len(hcases) < len(HOST_CORPUS) + n_host:
+        hcases.append(("h%d" % len(hcases), gen_host(rng)))
+    for release in profiles:
+        for s0 in range(0, len(hcases), 200):
+            part = hcases[s0:s0 + 200]
+            recs = langrun.run_impl(env, "host%d_%d" % (int(release), s0), part, langrun.CFGS, release=release, timeout=300)
+            for cid, src in part:
+                r = recs.get(cid)
+                if not r:
+                    continue
+                host_stats["programs"] += 1
+                if not r.get("accepted"):
+                    host_stats["rejected"] += 1
+                    if sum(1 for d in disagreements if d["stream"] == "host-program-rejected") < 2:
+                        disagreements.append({"stream": "host-program-rejected", "case": src, "detail": (r.get("diags") or [])[:2]})
+                    continue
+                host_stats["accepted"] += 1
+                evaluations += 1
+                bad = oracle(r)
+                if bad:
+                    host_stats["oracle_failures"] += 1
+                    small = src
+                    if shrinks[0] < 4:
+                        shrinks[0] += 1
+                        small = shrink(env, src, release)
+                    fail("host-value-frame-storage", small, {"differs": bad[0][0], "detail": bad[0][1]}, "release" if release else "debug")
+                    continue
+                nf = r["runs"].get("nf")
+                if nf and langrun.ending_class(nf[0]) == "ok" and "s:" in nf[1]:
+                    host_stats["child_output_seen"] += 1
+                    if not release:
+                        nontrivial.add(common.chash(src))
+    extra["host_stream"] = host_stats
+
     extra["reclamation_counters_total"] = counted
     extra["shape_stream"] = shape_stats
     extra["memeval_stream"] = memeval_stats
@@ -1470,7 +1787,12 @@ def correspond(env, searching=False, model=True):
                 "Mem.run(repaired) output == Mem.arun output, witnesses must fault under the shipped-variant configurations; "
                 "instrumented evaluator (MemEval.eval_ops) on every corpus/generated program and shape: values read back from the "
                 "machine with reclamation == reclamation-free machine == evaluator output == implementation nf/pf output, same "
-                "ending, and frame resets / pool returns / promotions implied by the issued ops == the runtime's counters",
+                "ending, and frame resets / pool returns / promotions implied by the issued ops == the runtime's counters; host stream: "
+                "process builders configured with computed strings (arg/cwd/env key+value/stdin_text/program) inside functions, loops and "
+                "nested helpers on outer builders or builders passed in and returned, results of run() returned / bound / stored from "
+                "functions and loops, frame churn, then the child's view (pwd, environment, arguments, stdin) and the script's view "
+                "(stdout, stderr, exit code) — same nf==nn / pf==pn oracle with process spawning enabled; non-trivial also = host program "
+                "whose child output was observed",
         "samples": samples,
         "failures": failures,
         "disagreements": disagreements,
